@@ -22,6 +22,7 @@ func runC17(r *harness.Run) {
 		"the reference interpreter derives the admissible line range from the token lines the printer recorded for that very layout; debug.getinfo currentline/linedefined/lastlinedefined probes and debug.getlocal/getupvalue/setlocal/setupvalue probes inserted at every statement gap of a set of scope-exercising programs, again under layouts"
 	r.Assumptions = []string{"a statement spread over several lines admits any of its lines (the property says 'names a line of the innermost statement')", "names starting with '(' (temporaries, hidden loop variables) are ignored in local enumerations", "upvalue enumerations are compared as sets (sorted by name)"}
 	runPinned(r, "C17")
+	shebangLines(r)
 	pr.runGens(gens, []string{"F-crlf", "B-crlf/F-crlf", "B-lfcr/F-crlf", "F-locals", "F-getinfo", "F-nestlocals", "B-crlf/F-getinfo", "B-crlf/F-locals", "F-faultline"})
 }
 
